@@ -3,17 +3,18 @@
 package hx
 
 import (
-	"flag"
-	"io"
-	"log"
 	"bufio"
 	"encoding/hex"
 	"encoding/json"
+	"flag"
 	"fmt"
+	"io"
+	"log"
 	"math/rand"
 	"os"
 	"path/filepath"
 	"sort"
+	"strings"
 )
 
 // Run is one correspondence run: ops go to ops.txt, the implementation's
@@ -31,6 +32,8 @@ type Run struct {
 	Seen   map[string]struct{}
 	Sample []string
 	Extra  map[string]interface{}
+	hist   uint64
+	Hists  map[uint64]struct{}
 }
 
 func NewRun(dir, tier string, seed int64) *Run {
@@ -41,7 +44,7 @@ func NewRun(dir, tier string, seed int64) *Run {
 	must(err)
 	return &Run{Dir: dir, Tier: tier, Seed: seed, R: rand.New(rand.NewSource(seed)),
 		ops: bufio.NewWriterSize(fo, 1<<20), out: bufio.NewWriterSize(fg, 1<<20), fo: fo, fg: fg,
-		Stats: map[string]int{}, Seen: map[string]struct{}{}, Extra: map[string]interface{}{}}
+		Stats: map[string]int{}, Seen: map[string]struct{}{}, Extra: map[string]interface{}{}, Hists: map[uint64]struct{}{}, hist: 14695981039346656037}
 }
 
 func must(err error) {
@@ -57,6 +60,18 @@ func (r *Run) Emit(op, res string) {
 	r.out.WriteString(res)
 	r.out.WriteByte('\n')
 	r.N++
+	// distinct histories: FNV hash of the op lines between reset/new markers
+	if strings.HasPrefix(op, "reset") || strings.HasPrefix(op, "new ") {
+		if r.hist != 14695981039346656037 {
+			r.Hists[r.hist] = struct{}{}
+		}
+		r.hist = 14695981039346656037
+	} else {
+		for i := 0; i < len(op); i++ {
+			r.hist = (r.hist ^ uint64(op[i])) * 1099511628211
+		}
+		r.hist = (r.hist ^ 10) * 1099511628211
+	}
 	if len(r.Seen) < 2000000 {
 		r.Seen[op] = struct{}{}
 	}
@@ -81,8 +96,15 @@ func (r *Run) Close() {
 		keys = append(keys, k)
 	}
 	sort.Strings(keys)
+	if r.hist != 14695981039346656037 {
+		r.Hists[r.hist] = struct{}{}
+	}
+	distinct := len(r.Seen)
+	if len(r.Hists) > distinct {
+		distinct = len(r.Hists)
+	}
 	st := map[string]interface{}{
-		"evaluations": r.N, "distinct": len(r.Seen), "distribution": r.Stats, "samples": r.Sample,
+		"evaluations": r.N, "distinct": distinct, "distinct_histories": len(r.Hists), "distribution": r.Stats, "samples": r.Sample,
 		"seed": r.Seed, "tier": r.Tier, "extra": r.Extra,
 	}
 	b, _ := json.MarshalIndent(st, "", " ")
